@@ -36,6 +36,41 @@ func executeIntegerMath(lhs, rhs int64, op ast.BinaryOperator) (int64, error) {
 	}
 }
 
+// integerMath applies op to lhs and rhs with [executeIntegerMath] unless the
+// exact result does not fit in an int64, in which case it falls back to
+// [executeFloatMath] rather than returning a wrapped-around integer.
+func integerMath(lhs, rhs int64, op ast.BinaryOperator) (any, error) {
+	if integerMathOverflows(lhs, rhs, op) {
+		return executeFloatMath(float64(lhs), float64(rhs), op)
+	}
+	return executeIntegerMath(lhs, rhs, op)
+}
+
+// integerMathOverflows returns true if the exact result of applying op to lhs
+// and rhs is outside the range of int64.
+func integerMathOverflows(lhs, rhs int64, op ast.BinaryOperator) bool {
+	switch op {
+	case ast.BinaryAdd:
+		sum := lhs + rhs
+		return (sum > lhs) != (rhs > 0)
+	case ast.BinarySub:
+		diff := lhs - rhs
+		return (diff < lhs) != (rhs > 0)
+	case ast.BinaryMul:
+		if lhs == 0 || rhs == 0 {
+			return false
+		}
+		if (lhs == -1 && rhs == math.MinInt64) || (rhs == -1 && lhs == math.MinInt64) {
+			return true
+		}
+		return (lhs*rhs)/rhs != lhs
+	case ast.BinaryDiv:
+		return lhs == math.MinInt64 && rhs == -1
+	default:
+		return false
+	}
+}
+
 // executeIntegerMath compares lhs to rhs using op and returns the resulting
 // value. op must be a binary math operator. Returns an error for an attempt
 // to divide by zero.
@@ -103,6 +138,9 @@ func (exec *Executor) execUnaryMathExpr(
 				return statusOK, nil
 			}
 			val = intCallback(v)
+			if v == math.MinInt64 && node.Operator() == ast.UnaryMinus {
+				val = -float64(v) // -(-2^63) does not fit in an int64
+			}
 		case float64:
 			if found == nil && next == nil {
 				return statusOK, nil
@@ -113,6 +151,9 @@ func (exec *Executor) execUnaryMathExpr(
 				return statusOK, nil
 			}
 			val, ok = castJSONNumber(v, intCallback, floatCallback)
+			if i, err := v.Int64(); err == nil && i == math.MinInt64 && node.Operator() == ast.UnaryMinus {
+				val = -float64(i) // -(-2^63) does not fit in an int64
+			}
 		default:
 			ok = found == nil && next == nil
 		}
@@ -193,12 +234,12 @@ func execMathOp(left, right any, op ast.BinaryOperator) (any, error) {
 	case int64:
 		switch right := right.(type) {
 		case int64:
-			return executeIntegerMath(left, right, op)
+			return integerMath(left, right, op)
 		case float64:
 			return executeFloatMath(float64(left), right, op)
 		case json.Number:
 			if right, err := right.Int64(); err == nil {
-				return executeIntegerMath(left, right, op)
+				return integerMath(left, right, op)
 			}
 			if right, err := right.Float64(); err == nil {
 				return executeFloatMath(float64(left), right, op)
